@@ -445,6 +445,28 @@ pub fn gen_grid_case<T: Flt>(rng: &mut Rng, o: &GridOpts) -> (Spec2<T>, Labels2)
     (spec, labels)
 }
 
+/// a table of 2*ny-1 (>= nx) values for aliased axes (x = table[..nx], y = table[..;2]); mostly
+/// increasing, optionally with one value out of order somewhere
+pub fn gen_alias_table<T: Flt>(rng: &mut Rng, nx: usize, ny: usize, allow_invalid: bool) -> Vec<T> {
+    let len = nx.max(2 * ny - 1);
+    let mut v: Vec<T> = Vec::with_capacity(len);
+    let mut pos = rng.irange(-20, 20) as f64 * 0.25;
+    for _ in 0..len {
+        v.push(T::of(pos));
+        pos += 0.25 * (1 + rng.below(6)) as f64;
+    }
+    if allow_invalid && rng.chance(0.6) {
+        let i = rng.below(len);
+        let j = rng.below(len);
+        match rng.below(3) {
+            0 => v.swap(i, j),
+            1 => v[i] = v[j],
+            _ => v[i] = T::nan(),
+        }
+    }
+    v
+}
+
 /// is lane data affine in x (then a wrong bracket is invisible to a value check)?
 pub fn data_is_affine<T: Flt>(x: &[T], data: &ArrayD<T>) -> bool {
     let n = x.len();
